@@ -114,6 +114,13 @@ CFGNode::CFGNode(Program* program, std::string name, std::size_t id,
 
 CFGNode::~CFGNode() {}
 
+void CFGNode::set_condition(Binding* condition) {
+  if (condition_ != condition) {
+    program_->InvalidateSolver();
+  }
+  condition_ = condition;
+}
+
 CFGNode* CFGNode::ConnectNew(std::string name) {
   return ConnectNew(std::move(name), nullptr);
 }
